@@ -82,6 +82,8 @@ def replay(ctx, path):
     R = core.REPO
     drv = ctx.cxx("drv_codec", ["drv_codec.cpp", R + "/igris/util/hexascii.c", R + "/igris/string/hexascii_string.cpp", R + "/igris/util/base64.cpp"])
     e = d["event"]
+    if e.get("e") == "Fault":
+        return core.replay_fault(ctx, d, drv, "CodecTrace", path)
     t = ctx.drive(drv, ["R", "Codec %s %s" % (e["fn"], fmt(e["in"]))], "replay")
     ctx.report(ctx.judge("CodecTrace", [t]))
     return ctx.finish(rule="replay of " + path)
